@@ -68,7 +68,15 @@ CHECKS.update({
              "proved for all lines by SMT; the losslessness of tokenizer + parser + dump is decided by a bounded stand-in over all sequences "
              "of <= 3/4 lines of 26 line-class representatives in three termination modes.",
         technique="regex-to-SMT lemmas on the real patterns + bounded stand-in (sequence enumeration)"),
- "C03": bounded_only("all ordered pairs of ~700-3000 generated valid versions are compared with a Policy-level specification, itself validated "
+ "C03": dict(bounded_only("", "DESIGN.md §5 C03"),
+        text="Proved for all inputs from the real AST: _order against the character order of the property (ASCII), _version_cmp_string against "
+             "the recursive specification lexpad (loop invariant, comprehensions as recursive functions, termination), lexpad's range / "
+             "reflexivity / antisymmetry / transitivity by guarded induction, _compare's combination of epoch, upstream and revision and "
+             "the six rich comparisons (relative to an assumed contract for _version_cmp_part). Agreement of the whole order with dpkg, "
+             "_version_cmp_part itself and hash consistency are decided by a bounded stand-in (all pairs of generated versions vs a "
+             "Policy-level spec validated against dpkg's algorithm and binary).",
+        technique="contract-based deductive verification (loop invariants, recursive spec functions, induction lemmas; SMT) + bounded stand-in"),
+ "C03-old": bounded_only("all ordered pairs of ~700-3000 generated valid versions are compared with a Policy-level specification, itself validated "
         "against a transliteration of dpkg's verrevcmp and the dpkg binary; operators, symmetry, transitivity on triples and hash consistency;",
         "DESIGN.md §5 C03"),
  "C05": bounded_only("generated valid documents x histories of set/add/delete are checked byte-wise against spans from an independent scanner and "
